@@ -15,6 +15,7 @@ From Sakura.Model Require Reserve.
 From Sakura.Gen Require Import Consts VarRows.
 From Sakura.Spec Require Import SmfSpec TrackSpec.
 From Sakura.Proofs Require Import VlqP WriterP SortP ContainerP ExtP RsvP BlockP LayoutP LogP.
+From Sakura.Proofs Require Import FollowP.
 From Coq Require Import Lia Permutation.
 Open Scope list_scope.
 Open Scope Z_scope.
@@ -55,8 +56,17 @@ Proof. split; [constructor; [apply track_new_inv|constructor]|constructor]. Qed.
 Lemma song_new_wf : events_wf song_new.
 Proof. apply events_inv_wf, song_new_inv. Qed.
 
+Lemma follow_track_inv old new t : track_inv t -> track_inv (follow_timebase old new t).
+Proof.
+  intros H. destruct (follow_timebase_cases old new t) as [-> | ->]; [exact H|]. destruct t; exact H.
+Qed.
 Lemma song_with_ls_inv s ls : events_inv s -> events_inv (song_with_ls s ls).
-Proof. exact (fun H => H). Qed.
+Proof.
+  intros [H1 H2]. split.
+  - rewrite song_with_ls_tracks. apply Forall_forall. intros t Ht. apply in_map_iff in Ht.
+    destruct Ht as (t0 & <- & Ht0). apply follow_track_inv. rewrite Forall_forall in H1. apply H1. exact Ht0.
+  - destruct s; exact H2.
+Qed.
 Lemma song_after_lex_inv ls : events_inv (song_after_lex ls).
 Proof. apply song_with_ls_inv, song_new_inv. Qed.
 Lemma song_after_lex_wf ls : events_wf (song_after_lex ls).
@@ -699,7 +709,10 @@ Proof.
 Qed.
 
 Lemma dims_song_with_ls s ls : TB ls -> dims_inv s -> dims_inv (song_with_ls s ls).
-Proof. intros Ht [H1 _]. split; [exact H1|exact Ht]. Qed.
+Proof.
+  intros Ht [H1 _]. split; [|destruct s; exact Ht].
+  rewrite song_with_ls_tracks, follow_length. exact H1.
+Qed.
 Lemma tb_ls_of_song s : dims_inv s -> TB (ls_of_song s).
 Proof. intros [_ H]. exact H. Qed.
 
